@@ -423,9 +423,10 @@ macro_rules! bitvec_dyn {
     ($bv:ty, $bs:ty) => {
         impl Dyn for $bv {
             fn to_dyn(&self) -> DV {
-                if self.len() > (1 << 22) {
-                    // oversized marker (a crafted input made the container claim this many bits)
-                    return DV::V(u32::MAX, vec![DV::N(self.len() as u128)]);
+                if self.len() > (1 << 22) || self.len() > self.storage().len() * 32 {
+                    // oversized marker (a crafted input made the container claim this many bits,
+                    // or more bits than it has storage for: using it panics inside bit-vec)
+                    return DV::V(u32::MAX, vec![DV::N(self.len() as u128), DV::N(self.storage().len() as u128 * 32)]);
                 }
                 DV::L(self.iter().map(|b| DV::N(b as u128)).collect())
             }
@@ -439,8 +440,8 @@ macro_rules! bitvec_dyn {
         }
         impl Dyn for $bs {
             fn to_dyn(&self) -> DV {
-                if self.get_ref().len() > (1 << 22) {
-                    return DV::V(u32::MAX, vec![DV::N(self.get_ref().len() as u128)]);
+                if self.get_ref().len() > (1 << 22) || self.get_ref().len() > self.get_ref().storage().len() * 32 {
+                    return DV::V(u32::MAX, vec![DV::N(self.get_ref().len() as u128), DV::N(self.get_ref().storage().len() as u128 * 32)]);
                 }
                 DV::L(self.iter().map(|b| DV::N(b as u128)).collect())
             }
